@@ -52,6 +52,16 @@ def h_pbc():
     return cell, mf
 
 
+@cached
+def h_pbc_tri():
+    """triclinic primitive cell (non-symmetric lattice matrix), 2x2x1 mesh: exposes transposed-lattice / transposed-supercell mistakes"""
+    import pyscf.pbc.gto
+    import pyscf.pbc.scf
+    cell = pyscf.pbc.gto.M(atom="H 0. 0. 0.; H 1.1 0.9 1.0", basis="sto-3g", unit="bohr", a=np.array([[4.0, 0, 0], [1.0, 4.2, 0], [0.5, 0.3, 4.5]]), verbose=0)
+    mf = pyscf.pbc.scf.KRKS(cell, cell.make_kpts((2, 2, 1))).run()
+    return cell, mf
+
+
 def randomize(wf, rng, skip=("mo_coeff", "det_coeff"), scale=0.3):
     for k in list(wf.parameters.keys()):
         if any(s in k for s in skip):
@@ -127,6 +137,9 @@ def pbc_wfs(rng, which="all"):
     sup = pyq.get_supercell(cell, S=S1)
     out.append(("pbc_slater_twist0*jastrow", sup, MultiplyWF(Slater(sup, mf, twist=0, eval_gto_precision=1e-6), randomize(generate_jastrow(sup)[0], rng))))
     if which == "all":
+        cellt, mft = h_pbc_tri()
+        supt = pyq.get_supercell(cellt, S=np.array([[1, 1, 0], [-1, 1, 0], [0, 0, 1]]))
+        out.append(("pbc_triclinic_slater_twist1*jastrow", supt, MultiplyWF(Slater(supt, mft, twist=1, eval_gto_precision=1e-6), randomize(generate_jastrow(supt)[0], rng))))
         sup2 = pyq.get_supercell(cell, S=np.diag([2, 1, 1]))
         out.append(("pbc_slater_complex_twist", sup2, Slater(sup2, mf, twist=1, eval_gto_precision=1e-6)))
         a, b = default_jastrow_basis(sup2)
